@@ -73,7 +73,7 @@ Print Assumptions C15_resolution_plain.
 Theorem C15_dm_edges_exact_refuted : exists es o a n,
   draw None es = Ok o /\ In (IClass a (2%positive :: n) HClass) o /\
   In {| e_app := 2%positive; e_name := [4%positive];
-        e_def := DTuple [(1%positive, FRef {| r_ctx := 2%positive; r_app := None; r_path := [[4%positive]; [5%positive]] |})] |} es /\
+        e_def := DTuple [(1%positive, FRef {| r_ctx := 2%positive; r_app := None; r_parts := []; r_path := [[4%positive]; [5%positive]] |})] |} es /\
   n = join [[4%positive]; [5%positive]] /\ forall x y, count_edges o x y = 0.
 Proof. exact dm_edges_exact_refuted. Qed.
 Print Assumptions C15_dm_edges_exact_refuted.
@@ -82,3 +82,11 @@ Theorem C15_dm_edges_prim_alias_refuted : exists es o a b c ar,
   draw None es = Ok o /\ In (IEdge a b c ar) o /\ forall n h, ~ In (IClass b n h) o.
 Proof. exact dm_edges_prim_alias_refuted. Qed.
 Print Assumptions C15_dm_edges_prim_alias_refuted.
+
+(* per-application view: exactly the covered types of that application are declared *)
+Theorem C15_view_of_app_exact : forall a es o, draw (Some a) es = Ok o ->
+  (forall al n h, In (IClass al n h) o ->
+     exists e, In e (type_map es) /\ e_app e = a /\ is_drawn e = true /\ n = e_key e) /\
+  (forall e, In e (type_map es) -> e_app e = a -> is_drawn e = true -> exists al h, In (IClass al (e_key e) h) o).
+Proof. exact view_of_app_exact. Qed.
+Print Assumptions C15_view_of_app_exact.
